@@ -376,8 +376,12 @@ Fixpoint set_tuple (p : list string) (v : value) (ip : inpl) (self : tree) : tre
           | _ :: _ =>
               match aget k es with
               | None =>
-                  let '(c', o) := set_tuple rest v INo (Node KTd bs dv nm []) in
-                  (Node KTd bs dv nm (aset k c' es), o)
+                  match ip with
+                  | IStrict => (self, Raised)       (* set_: a missing intermediate node is a missing key *)
+                  | _ =>
+                      let '(c', o) := set_tuple rest v INo (Node KTd bs dv nm []) in
+                      (Node KTd bs dv nm (aset k c' es), o)
+                  end
               | Some (Leaf _ _) => (self, Raised)
               | Some (Node KNt _ _ _ _) => (self, Unmodelled)
               | Some (Node KTd cbs cdv cnm ces) =>
@@ -498,8 +502,10 @@ Fixpoint put_path (p : list string) (v : tree) (self : tree) : tree * outcome :=
   | _ => (self, Unmodelled)
   end.
 
-(* rename_key_(old, new, safe) (_td.py:2611).  The value is stored under the new key WITHOUT validation (validated=True)
-   — finding D103 — unless fixed_D103. *)
+(* rename_key_(old, new, safe) (_td.py).  When the new key lies UNDER the old one (td.rename_key_("a", ("a", "b"))) the
+   entry is detached first; a string new key is stored with validated=True (the entry comes from this node or from
+   below it), a nested new key goes through _set_tuple with validated=False (fixes/C01/D103.diff; fixed_D103 = false is
+   the code before that repair). *)
 Definition rename_key (old new : list string) (safe : bool) (self : tree) : tree * outcome :=
   if through_nt old self || through_nt new self then (self, Unmodelled)
   else
@@ -511,21 +517,27 @@ Definition rename_key (old new : list string) (safe : bool) (self : tree) : tree
       else
         match get_path old self with
         | GVal v =>
-            let '(s1, o1) :=
-              match new with
-              | [k] => put_path new v self
-              | _ =>
-                  if fixed_D103 then
-                    (* the value is the very object that still sits under the old key: when the destination node
-                       adopts / erases dim names it renames that object too (aliasing the tree model cannot express) *)
-                    if has_names v then (self, Unmodelled) else set_tuple new (VTree v) INo self
-                  else put_path new v self
-              end in
-            match o1 with
+            let under := path_eqb (firstn (List.length old) new) old in
+            let '(s0, o0) := if under then del_path old self else (self, Done) in
+            match o0 with
             | Done =>
-                if path_eqb (firstn (List.length new) old) new && Nat.ltb 1 (List.length old) then (s1, Done)
-                else del_path old s1
-            | _ => (s1, o1)
+                let '(s1, o1) :=
+                  match new with
+                  | [k] => put_path new v s0
+                  | _ =>
+                      if fixed_D103 then
+                        (* the value is the very object that still sits under the old key: when the destination node
+                           adopts / erases dim names it renames that object too (aliasing the tree model cannot express) *)
+                        if has_names v then (s0, Unmodelled) else set_tuple new (VTree v) INo s0
+                      else put_path new v s0
+                  end in
+                match o1 with
+                | Done =>
+                    if under || (path_eqb (firstn (List.length new) old) new && Nat.ltb 1 (List.length old)) then (s1, Done)
+                    else del_path old s1
+                | _ => (s1, o1)
+                end
+            | _ => (s0, o0)
             end
         | GUnm => (self, Unmodelled)
         | _ => (self, Raised)
@@ -701,8 +713,8 @@ Fixpoint leaf_paths (t : tree) : list (list string) :=
 Fixpoint smem (s : string) (l : list string) : bool := match l with [] => false | x :: r => String.eqb s x || smem s r end.
 Fixpoint sset_len (l : list string) : nat := match l with [] => 0 | x :: r => if smem x r then sset_len r else S (sset_len r) end.
 
-(* _flatten_keys_inplace (base.py:12713): rename every leaf to its joined name, then exclude ALL former root keys
-   (the `isinstance(leaf, str)` test never holds: findings D24 / D24b of C04 live here and are kept) *)
+(* _flatten_keys_inplace (base.py): the leaves are collected, every root entry is removed, then the leaves are bound
+   under their joined names, in the order of the traversal *)
 Definition flatten_in (sep : string) (self : tree) : tree * outcome :=
   match self with
   | Node KTd bs dv nm es =>
@@ -710,12 +722,12 @@ Definition flatten_in (sep : string) (self : tree) : tree * outcome :=
       let flat := map (C04_Tree.join sep) leaves in
       if Nat.ltb (sset_len flat) (List.length leaves) then (self, Raised)
       else
-        let root_keys := map fst es in
-        let '(s1, o1) := seq_steps (fun p self => rename_key p [C04_Tree.join sep p] false self) leaves self in
-        match o1 with
-        | Done => exclude_in (S (depth s1)) (map (fun k => [k]) root_keys) s1
-        | _ => (s1, o1)
-        end
+        let vals := map (fun p => get_path p self) leaves in
+        if forallb (fun g => match g with GVal _ => true | _ => false end) vals then
+          (Node KTd bs dv nm
+             (fold_left (fun acc kg => match snd kg with GVal v => aset (fst kg) v acc | _ => acc end) (combine flat vals) []),
+           Done)
+        else (self, Unmodelled)
   | _ => (self, Unmodelled)
   end.
 
